@@ -125,7 +125,7 @@ pub fn sweep_case(e: &SweepEntry, rng: &mut Rng) -> Case {
             stdin = Some(PROBE.as_bytes().to_vec());
         }
     }
-    let inv = Invocation { opts, stdin, faults: vec![], sched: gen::random_sched(rng), dir_key: rng.next() };
+    let inv = Invocation { opts, stdin, faults: vec![], sched: gen::random_sched(rng), dir_key: rng.next(), pre_edits: vec![] };
     Case { family: format!("carrier-sweep:{}={}@{}", e.option, e.value, e.carrier), world: w, invs: vec![inv] }
 }
 
@@ -194,7 +194,7 @@ pub fn malformed_case(rng: &mut Rng) -> Case {
             family = format!("carrier-malformed:bad-flag-value-{}@flag", bad.0);
         }
     }
-    let inv = Invocation { opts, stdin: None, faults: vec![], sched: gen::random_sched(rng), dir_key: rng.next() };
+    let inv = Invocation { opts, stdin: None, faults: vec![], sched: gen::random_sched(rng), dir_key: rng.next(), pre_edits: vec![] };
     Case { family, world: w, invs: vec![inv] }
 }
 
